@@ -17,7 +17,7 @@ def levels(tier):
     alpha = ["we", "delwe", "page", "links", "rule", "reopen", "clear"]
     if tier == "quick":
         return [
-            {"name": "n2", "n": 2, "alphabet": alpha, "links_batch": 1, "rule_patterns": ["path1"], "we_two_prefixes": True},
+            {"name": "n2", "n": 2, "alphabet": ["we", "delwe", "page", "rule", "reopen", "clear"], "rule_patterns": ["path1"], "we_two_prefixes": True},
             {"name": "n3", "n": 3, "alphabet": ["we", "delwe", "page", "reopen", "clear"]},
         ]
     return [
